@@ -214,6 +214,16 @@ func c12Gen(g *fw.GenCtx) []fw.Case {
 			cases = append(cases, fw.MkCase("loop", c12Case{Stmts: gq.StmtJSON(big), Name: fmt.Sprintf("big(K=%d)", K), Graph: gr, Procs: procs[i%4], Profile: pf}))
 		}
 	}
+	// more travelers in the cycle than every buffer of the loop together (queue, 4 channels of 5000):
+	// 6*5^5 = 18750 jump back in the last pass and fan out to 93750
+	huge := flat(q.V().Statements, []*gripql.GraphStatement{gsSet("c", 0.0), mkStmt(q.As("s")), gsMark("m")}, q.Out().Statements,
+		[]*gripql.GraphStatement{gsInc("$s.c", 1), mkStmt(q.Has(cond("LT", "$s.c", 6.0))), gsJump("m", nil, true)}, q.Count().Statements)
+	for i, pf := range profiles {
+		if pf.Kind != "none" && (g.Quick() || pf.Kind != "yield") {
+			continue
+		}
+		cases = append(cases, fw.MkCase("loop", c12Case{Stmts: gq.StmtJSON(huge), Name: "huge(K=6)", Graph: "K6", Procs: 16, Profile: pf, Rep: i}))
+	}
 	return cases
 }
 
